@@ -285,6 +285,22 @@ def history(box, rng, nsteps):
             pool.pop(rng.randrange(len(pool)))
 
 
+def model_check(ctx, module, cfg, workers):
+    """exhaustive TLC run (like ctx.model_check but without -coverage: with ~10^5 successors per state the coverage
+    bookkeeping exhausts the heap); an invariant / action-property violation is a rejection"""
+    r = ctx.tlc(module, cfg, workers=workers, timeout=3000, tag='model check')
+    ctx.cov['states'] += r['distinct']
+    ctx.cov['transitions'] += r['generated']
+    if not r['ok']:
+        if r['error'] and 'violated' not in r['error']:
+            raise core.MachineryError('TLC run %s/%s failed: %s\n%s' % (module, cfg, r['error'], r['out'][-1500:]))
+        ctx.reject('TLC model check of %s (%s) failed: %s' % (module, cfg, r['error']),
+                   key={'clause': 'model_check', 'module': module}, data=r['out'][-4000:])
+    if r['generated'] < 1000:
+        raise core.MachineryError('vacuous model check %s/%s: %d transitions' % (module, cfg, r['generated']))
+    return r
+
+
 def run(ctx):
     ctx.cov['rule'] = ('events = create/open/FILES/NAME/KILL operations executed on a real Session with a native mount; distinct by '
                        '(operation, name(s), directory before); non-trivial = operations on names that are not plain existing upper-case names')
@@ -293,9 +309,9 @@ def run(ctx):
     quick = ctx.quick()
     # 1. design: the reference lookup against Judge, every name over the tiny alphabet
     if not os.environ.get('C28_DEV'):
-        ctx.model_check('DosNames_MC', cfg=ctx.pick('DosNames_MC.cfg', 'DosNames_MC_big.cfg'), workers=ctx.pick(8, 16), require_actions=False)
+        model_check(ctx, 'DosNames_MC', ctx.pick('DosNames_MC.cfg', 'DosNames_MC_big.cfg'), ctx.pick(8, 16))
         if not quick:
-            ctx.model_check('DosNames_MC', cfg='DosNames_MC_two.cfg', workers=16, require_actions=False)
+            model_check(ctx, 'DosNames_MC', 'DosNames_MC_two.cfg', 16)
         r = ctx.tlc('DosNames_MC', 'DosNames_MC_ascoded.cfg', workers=2, tag='ascoded (must fail)')
         if r['ok'] or 'Accepted' not in (r['error'] or ''):
             raise core.MachineryError('selftest: TLC accepted the as-coded name lookup: %s' % r['error'])
@@ -359,10 +375,48 @@ def judge(ctx, box):
                 clause, e['op'], n, (' AS %r' % m) if m is not None else '', (' (%s)' % e['kind']) if 'kind' in e else '',
                 e['ok'], e['code'], (' listed=%s' % [bytes(x) for x in e['listed']]) if 'listed' in e else '',
                 [(bytes(x[0]), x[1]) for x in e['dir']][:8], hist[-4:]),
-                key={'clause': clause, 'op': e['op'], 'name_class': ncls, 'code': e['code']}, data={'event': e, 'history': hist})
+                key={'clause': clause, 'op': e['op'], 'name_class': ncls, 'code': e['code']},
+                data={'event': e, 'history': hist, 'segment': segment(box, a + i - 1)})
     ctx.cov['events_by_operation'] = byop
     ctx.cov['operations_succeeded'] = nok
     for e, info in (evs[3], evs[len(evs) // 2], evs[-1]):
         ctx.sample({k: (bytes(v).decode('latin-1') if k in ('n', 'm') else v) for k, v in e.items() if k in ('op', 'kind', 'n', 'm', 'ok', 'code', 'got')})
     if nok < len(evs) // 10:
         raise core.MachineryError('vacuous: hardly any operation succeeded (%d of %d)' % (nok, len(evs)))
+
+
+def segment(box, idx):
+    """the operations of the history that contains event idx, up to and including it (for --replay)"""
+    start = max(x for x in box.starts if x <= idx)
+    return [{k: v for k, v in e.items() if k in ('op', 'kind', 'n', 'm', 'pre')} for e, _ in box.events[start:idx + 1]]
+
+
+def replay(ctx, path):
+    """./check C28 --replay FILE: re-run the recorded history segment of every rejection on a fresh mount and judge it again."""
+    import json
+    logging.disable(logging.ERROR)
+    with open(path) as f:
+        doc = json.load(f)
+    box = NBox(ctx)
+    for v in doc['violations']:
+        seg = (v.get('data') or {}).get('segment') if isinstance(v.get('data'), dict) else None
+        if not seg:
+            continue
+        box.fresh([bytes(x[0]).decode('latin-1') for x in seg[0].get('pre', [])])
+        for o in seg:
+            n = bytes(o['n'])
+            if o['op'] == 'create':
+                e = box.create(n, o['kind'])
+            elif o['op'] == 'open':
+                e = box.open(n, o['kind'])
+            elif o['op'] == 'files':
+                e = box.files(n or None)
+            elif o['op'] == 'name':
+                e = box.name(n, bytes(o['m']))
+            else:
+                e = box.kill(n)
+        print('replayed %d operations, last: %s %r -> ok=%s code=%s' % (len(seg), e['op'], n, e['ok'], e['code']))
+    box.close()
+    if not box.events:
+        raise core.MachineryError('nothing to replay in %s' % path)
+    judge(ctx, box)
